@@ -39,21 +39,21 @@ CHECKS = {
     ),
     'C02': dict(
         level='exploration',
-        batches=[dict(scenario='c02stream', flavour='P', quick=5000, thorough=150000), dict(scenario='c02stream', flavour='A', quick=160, thorough=2400)],
+        batches=[dict(scenario='c02stream', flavour='P', quick=12000, thorough=400000), dict(scenario='c02stream', flavour='A', quick=2400, thorough=60000)],
         rule='seeded sessions: input x parameter vector x compressor call history (in_len,out_cap,directive,repeat; compressStream2 / legacy initCStream+compressStream+flushStream+endStream / stable in+out buffers; several frames, skippable frames injected on the wire; every 7th run multithreaded under simsched) x decoder call history (in_len,out_cap,repeat); distinct = distinct plan signature; non-trivial = at least 3 compression calls',
         real=REAL_COMMON, stub=['byte transport and segmentation (simio)', 'allocator (simalloc)', 'pthread primitives (simsched, MT runs)'],
         assumptions=['caller obligations honoured: after an unfinished end only end is re-issued with frozen input; stable-buffer rules; out_cap>=1 and in_len>=1 on the decoder side', 'frame boundaries for the frame-end oracle come from the independent frame walker (ref/refdec.c)'],
     ),
     'C05': dict(
         level='exploration',
-        batches=[dict(scenario='c05conf', flavour='P', quick=4000, thorough=120000), dict(scenario='c05conf', flavour='A', quick=120, thorough=2000)],
+        batches=[dict(scenario='c05conf', flavour='P', quick=12000, thorough=300000), dict(scenario='c05conf', flavour='A', quick=3000, thorough=60000)],
         rule='same session generator as C02 biased to small windows (windowLog 10-16 on inputs up to 2 MiB quick / 8 MiB thorough so window expiry is crossed constantly), dictionaries, MT every 7th run; every frame on the wire goes to the independent decoder + frame walker; distinct = distinct plan signature; non-trivial = at least 3 compression calls',
         real=REAL_COMMON, stub=['independent decoder: vendored educational decoder (enforces offset <= window / dictionary reach), own frame walker, own XXH64', 'transport, allocator, pthread primitives'],
         assumptions=['the vendored educational decoder is the specification oracle R', 'interoperability rules checked: compressed block smaller than its content, no RLE first block followed by more blocks; the sub-4-byte sequence-section rule is not checked (would need table-level parsing)'],
     ),
     'C10': dict(
         level='exploration',
-        batches=[dict(scenario='c10prog', flavour='P', quick=5000, thorough=150000), dict(scenario='c10prog', flavour='A', quick=600, thorough=15000)],
+        batches=[dict(scenario='c10prog', flavour='P', quick=15000, thorough=400000), dict(scenario='c10prog', flavour='A', quick=3000, thorough=60000)],
         rule='session generator of C02 with flush-heavy histories; (a) every call given input and output space must progress; (b) at up to 6 completed flushes per run the producer "crashes": a fresh streaming decoder is fed exactly the bytes emitted so far; (c) a hint-following reader decodes the whole stream; distinct = distinct plan signature; non-trivial = at least 3 compression calls',
         real=REAL_COMMON, stub=['byte transport and segmentation (simio)', 'allocator (simalloc)', 'pthread primitives (simsched, MT runs)'],
         assumptions=['flush completion = compressStream2(flush)/flushStream returned 0', 'liveness stated as progress per call and bounded total calls, never wall-clock'],
